@@ -416,6 +416,117 @@ def run_c16(tier, seed, wd, info, verdict):
     return res
 
 
+# ------------------------------------------------------------------------------------------ C14
+def run_c14(tier, seed, wd, info, verdict):
+    rnd = random.Random(seed)
+    # model: every accepted (n,t), all routings and interleavings, with repeats
+    for n in range(2, 8 if tier != "quick" else 6):
+        for t in range(1, n + 1):
+            r = tlc("Cluster", make_cfg(dict(N=n, T=t, ThresholdMode="gtHalf", SplitHistory=False, OutFile="x"), invariants=["NotBothThreshold"]), wd, name="Cluster_%d_%d" % (n, t), timeout=900)
+            require_ok(r, "Cluster(%d,%d)" % (n, t))
+            info["states"] += r.distinct
+            info["transitions"] += r.generated
+    for m, nt in ((dict(ThresholdMode="geHalf"), (4, 2)), (dict(SplitHistory=True), (3, 2))):
+        c = dict(N=nt[0], T=nt[1], ThresholdMode="gtHalf", SplitHistory=False, OutFile="x")
+        c.update(m)
+        rm = tlc("Cluster", make_cfg(c, invariants=["NotBothThreshold"]), wd, name="Cluster_mut")
+        require_killed(rm, "Cluster mutant %s" % m, ["NotBothThreshold"])
+        info["mutants"].append(dict(mutant=m, killed_by=[rm.violated]))
+    nts = [(3, 2), (4, 3)] if tier == "quick" else [(n, t) for n in range(2, 6) for t in range(1, n + 1) if 2 * t > n]
+    scs, meta = [], {}
+    variants = ["single", "batch1", "batch2"]
+    for n, t in nts:
+        c = dict(N=n, T=t, ThresholdMode="gtHalf", SplitHistory=False, OutFile="routings.json")
+        r = tlc("ClusterTable", make_cfg(c), wd, name="ClusterTable_%d_%d" % (n, t), workers=1)
+        require_ok(r, "ClusterTable")
+        routings = json.load(open(os.path.join(wd, "ClusterTable_%d_%d" % (n, t), "routings.json")))["routings"]
+        routings = sorted(routings, key=lambda x: json.dumps(x))
+        if tier == "quick":
+            # every routing in which both duties could reach t if nothing stopped them, plus a sample of the rest
+            hot = [x for x in routings if sum(1 for o in x if "A" in o) >= t and sum(1 for o in x if "B" in o) >= t]
+            routings = rnd.sample(hot, min(len(hot), 60)) + rnd.sample(routings, 20)
+        ids = list(range(1, n + 1))
+        duties, conflicts = [], []
+        for ri, routing in enumerate(routings):
+            e = 10 * (ri + 1)
+            ckind = ("vote", "surround", "prop")[ri % 3]
+            a, b = "r%d:A" % ri, "r%d:B" % ri
+            conflicts.append((a, b))
+            if ckind == "vote":
+                da = dict(kind="att", s=e, t=e + 1, root="A")
+                db = dict(kind="att", s=e, t=e + 1, root="B")
+            elif ckind == "surround":
+                da = dict(kind="att", s=e + 1, t=e + 2, root="A")
+                db = dict(kind="att", s=e, t=e + 3, root="A")
+            else:
+                da = dict(kind="prop", slot=e + 1, root="A")
+                db = dict(kind="prop", slot=e + 1, root="B")
+            # request order across instances: seeded interleaving of the per-instance orders
+            seqs = []
+            for inst, order in zip(ids, routing):
+                if order == "-":
+                    continue
+                seqs.append([(inst, ch) for ch in order])
+            flat = []
+            while seqs:
+                sq = rnd.choice(seqs)
+                flat.append(sq.pop(0))
+                if not sq:
+                    seqs.remove(sq)
+            if ri % 4 == 3:
+                flat = flat + [(inst, ch) for inst, ch in flat]     # repeats
+            for qi, (inst, ch) in enumerate(flat):
+                base = dict(da if ch == "A" else db)
+                base.update(inst=inst, duty=a if ch == "A" else b, variant=variants[(ri + qi + inst) % 3] if base["kind"] == "att" else "single",
+                            by=("name", "key")[(ri + qi) % 2], filler=1000 * (ri + 1) + 10 * qi + inst)
+                duties.append(base)
+        sid = "C14-%d-%d" % (n, t)
+        sc = dict(id=sid, ids=ids, n=n, t=t, initiator=ids[(n + t) % n], account="DW/c14", generate=True, probe=False, duties=duties)
+        scs.append(sc)
+        meta[sid] = dict(conflicts=conflicts, n=n, t=t, routings=len(routings))
+    by = run_parallel(scs, wd, "c14", workers=len(scs))
+    lines, index = [], []
+    npart, nvalid = 0, 0
+    for sc in scs:
+        evs = by.get(sc["id"])
+        if evs is None:
+            raise Inconclusive("scenario %s produced no events" % sc["id"])
+        if not any(e["ev"] == "Outcome" and e["ok"] for e in evs):
+            raise Inconclusive("key generation for %s failed: nothing to route duties to" % sc["id"])
+        start = len(lines) + 1
+        lines.append(dict(ev="Begin", sc=sc["id"], n=sc["n"], t=sc["t"]))
+        for a, b in meta[sc["id"]]["conflicts"]:
+            lines.append(dict(ev="Conflict", a=a, b=b))
+        for e in evs:
+            if e["ev"] == "Partial":
+                npart += 1
+                nvalid += bool(e["valid"])
+                lines.append(dict(ev="Partial", inst=e["inst"], duty=e["duty"], valid=bool(e["valid"])))
+            elif e["ev"] == "DutyTotal":
+                lines.append(dict(ev="DutyTotal", duty=e["duty"], partials=e["partials"], composite_valid=bool(e["composite_valid"])))
+            elif e["ev"] == "End":
+                lines.append(dict(ev="End"))
+        index.append((start, len(lines), sc["id"]))
+    if nvalid < 20:
+        raise Inconclusive("only %d valid partial signatures were obtained: the check would be vacuous" % nvalid)
+    ok, violated, pos, extra = validate("ClusterTrace", lines, ["NotBothThreshold"], wd)
+    tr = extra if ok else extra[0]
+    info["states"] += tr.distinct
+    info["transitions"] += tr.generated
+    if not ok:
+        sid = locate(index, pos)
+        sc = [s for s in scs if s["id"] == sid][0]
+        m = re.search(r'"(r\d+):A"', extra[1])
+        rname = m.group(1) if m else None
+        seg = [ln for ln in [lines[a - 1:b] for a, b, s_ in index if s_ == sid][0] if rname is None or str(ln.get("duty", ln.get("a", ""))).startswith(rname + ":")]
+        small = dict(sc, duties=[d for d in sc["duties"] if rname is None or d["duty"].startswith(rname + ":")])
+        verdict.violation("both:n=%d,t=%d" % (sc["n"], sc["t"]),
+                          "n=%d t=%d: two conflicting duties BOTH collected t valid partial signatures %s" % (sc["n"], sc["t"], extra[1]),
+                          dict(scenario=small, trace=seg[:60], invariant=violated, module="ClusterTrace", conflicts=[[rname + ":A", rname + ":B"]] if rname else meta[sid]["conflicts"]))
+    return dict(scenarios=len(scs), nts=nts, routings={k: v["routings"] for k, v in meta.items()}, partial_requests=npart, valid_partials=nvalid,
+                trace_events=len(lines), sample=lines[index[0][0] - 1:index[0][1]][:10])
+
+
 def run(prop, tier, seed):
     t0 = time.time()
     wd = workdir(prop)
@@ -430,6 +541,8 @@ def run(prop, tier, seed):
             res = run_c13(tier, seed, wd, info, verdict)
         elif prop == "C16":
             res = run_c16(tier, seed, wd, info, verdict)
+        elif prop == "C14":
+            res = run_c14(tier, seed, wd, info, verdict)
         else:
             res = run_c17(tier, seed, wd, info, verdict)
         rc = verdict.finish()
@@ -461,7 +574,19 @@ def replay(prop, path):
         sc = obj["scenario"]
         evs, rc, err = run_dkgdrv([sc], wd, "replay")
         lines = []
-        if obj["module"] == "SessionTrace":
+        if obj["module"] == "ClusterTrace":
+            lines.append(dict(ev="Begin", sc=sc["id"], n=sc["n"], t=sc["t"]))
+            for a, b in obj["conflicts"]:
+                lines.append(dict(ev="Conflict", a=a, b=b))
+            for e in evs:
+                if e["ev"] == "Partial":
+                    lines.append(dict(ev="Partial", inst=e["inst"], duty=e["duty"], valid=bool(e["valid"])))
+                elif e["ev"] == "DutyTotal":
+                    lines.append(dict(ev="DutyTotal", duty=e["duty"], partials=e["partials"], composite_valid=bool(e["composite_valid"])))
+                elif e["ev"] == "End":
+                    lines.append(dict(ev="End"))
+            inv = ["NotBothThreshold"]
+        elif obj["module"] == "SessionTrace":
             project_calls(sc["id"], sc, evs, lines, {"signer-1", "signer-2", "signer-3"})
             inv = ["Lifecycle", "PeersOnly"]
         else:
